@@ -308,6 +308,23 @@ def pagination(chk: Check, repo: Repo) -> None:
         return sl.slice.upper is not None and lin(sl.slice.upper) == lin(ast.Name(id=offset, ctx=ast.Load())) + lin(ast.Name(id=limit, ctx=ast.Load()))
     ok_w = win is not None and ((isinstance(win, ast.IfExp) and constraints(win.test) == constraints(ast.parse(f"{limit} >= 0", mode="eval").body) and is_page(win.body, True) and is_page(win.orelse, False)) or is_page(win, True))
     chk.ob("page-is-the-slice-offset-limit", f.site(), ok_w, f"page = {ast.unparse(win) if win is not None else '?'}", key="page|window")
+    # "limit reached" = the slice stopped before the end - and the page is not empty: an empty page that announces a next
+    # one (page size 0) gives a next_offset equal to the offset, and a client following it never gets any type
+    nonempty = False
+    if isinstance(lr, ast.BoolOp) and isinstance(lr.op, ast.And) and len(lr.values) == 2:
+        guards = [v for v in lr.values if not isinstance(v, ast.Compare)]
+        cmps = [v for v in lr.values if isinstance(v, ast.Compare)]
+        if len(guards) == 1 and len(cmps) == 1:
+            g = guards[0]
+            g = g.args[0] if isinstance(g, ast.Call) and call_name(g) == "bool" and len(g.args) == 1 else g
+            nonempty = win is not None and ast.dump(g) == ast.dump(win)
+            lr = cmps[0]
+    elif isinstance(lr, ast.Compare):
+        # 0 < limit: a page of at least one item whenever items remain
+        nonempty = constraints(lr) == constraints(ast.parse(f"0 < {limit} < len({items}) - {offset}", mode="eval").body)
+        if nonempty:
+            lr = ast.parse(f"0 <= {limit} < len({items}) - {offset}", mode="eval").body
+    chk.ob("a-page-that-announces-a-next-one-is-not-empty", f.site(), nonempty, "limit reached implies a non-empty page (next_offset advances)" if nonempty else "a page of size 0 reports `limit reached` with next_offset == offset: following the pages never advances and no type is ever listed", key="page|progress")
     ok_l = lr is not None and constraints(lr) == constraints(ast.parse(f"0 <= {limit} < len({items}) - {offset}", mode="eval").body)
     chk.ob("limit-reached-iff-items-remain", f.site(), ok_l, f"limit reached = {ast.unparse(lr) if lr is not None else '?'} (true exactly when the slice stopped before the end)", key="page|limit_reached")
     ld = repo.func(TOOLS, "list_dpts")
@@ -315,7 +332,16 @@ def pagination(chk: Check, repo: Repo) -> None:
     fp = ld.node.args.args[0].arg
     call = [c for c in calls(ld.node) if call_name(c) == "_paginate"]
     lst = call[0].args[0].id if len(call) == 1 and call[0].args and isinstance(call[0].args[0], ast.Name) else None
-    ok = lst is not None and [ast.unparse(a) for a in call[0].args[1:]] == [f"{fp}.limit", f"{fp}.offset"]
+    # the offset handed over is the filter's own, or that clamped at 0 (a negative one would count from the end)
+    def one_def(e: ast.AST) -> ast.AST:
+        if isinstance(e, ast.Name):
+            ds = [n.value for n in walk_local(ld.node) if isinstance(n, ast.Assign) and len(n.targets) == 1 and isinstance(n.targets[0], ast.Name) and n.targets[0].id == e.id]
+            if len(ds) == 1 and e.id != fp:
+                return ds[0]
+        return e
+    off_e = one_def(call[0].args[2]) if len(call) == 1 and len(call[0].args) == 3 else None
+    off_ok = off_e is not None and (ast.unparse(off_e) == f"{fp}.offset" or (isinstance(off_e, ast.Call) and call_name(off_e) == "max" and sorted(ast.unparse(a) for a in off_e.args) == sorted([f"{fp}.offset", "0"])))
+    ok = lst is not None and ast.unparse(call[0].args[1]) == f"{fp}.limit" and off_ok
     chk.ob("page-is-the-slice-offset-limit", ld.site(), ok, f"list_dpts pages `{lst}` by {fp}.limit / {fp}.offset", key="page|call")
     # the paged list does not depend on offset / limit and is totally ordered
     deps = [n for n in walk_local(ld.node) if isinstance(n, ast.Assign) and ast.unparse(n.targets[0]) == lst]
@@ -325,7 +351,7 @@ def pagination(chk: Check, repo: Repo) -> None:
     unp = [n for n in walk_local(ld.node) if isinstance(n, ast.Assign) and call and n.value is call[0] and isinstance(n.targets[0], ast.Tuple) and len(n.targets[0].elts) == 2 and all(isinstance(e, ast.Name) for e in n.targets[0].elts)]
     wname, lname = (unp[0].targets[0].elts[0].id, unp[0].targets[0].elts[1].id) if unp else ("?", "?")
     nxt = [k.value for c in calls(ld.node) if call_name(c) == "DptListResult" for k in c.keywords if k.arg == "next_offset"]
-    ok = len(nxt) == 1 and isinstance(nxt[0], ast.IfExp) and ast.unparse(nxt[0].test) == lname and isinstance(nxt[0].orelse, ast.Constant) and nxt[0].orelse.value is None and lin(nxt[0].body) == lin(ast.parse(f"{fp}.offset + len({wname})", mode="eval").body)
+    ok = len(nxt) == 1 and isinstance(nxt[0], ast.IfExp) and ast.unparse(nxt[0].test) == lname and isinstance(nxt[0].orelse, ast.Constant) and nxt[0].orelse.value is None and off_e is not None and len(call[0].args) == 3 and lin(nxt[0].body) == lin(ast.parse(f"{ast.unparse(call[0].args[2])} + len({wname})", mode="eval").body)
     chk.ob("next-page-starts-where-this-one-ended", ld.site(), ok, f"next_offset = {ast.unparse(nxt[0]) if nxt else '?'}: pages [o, o+len) are adjacent and disjoint, so every type is listed exactly once", key="page|next")
 
 
